@@ -12,7 +12,9 @@ LEVEL_TEXT = ('Generated mutation programs (<= 6 ops: Variable updates with cros
               'eagerly and under nnx.jit / remat / cached_partial(jit) (structural + value programs, call histories of 1-3 calls with '
               'caller-side structural edits between calls and trace counting) and under cond / switch / while_loop / fori_loop (value '
               'programs vs Python control flow; structural edits must be rejected). Compared: canonical form of every argument, return '
-              'value, identity of surviving caller objects.')
+              'value, identity of surviving caller objects.'
+              ' Arguments also include bare Variables and dicts of Variables in first / last position, objects detached'
+              ' and returned inside new objects, and objects detached for good (known finding K3).')
 LEVEL_NOTE = ('Needs the jit/remat JAX compat aliases. Variables all have shape (2,) so value expressions are jit-compatible; '
               'pmap/shard_map are outside the property.')
 TECHNIQUE = 'runtime monitoring: eager-vs-transformed differential on generated mutation programs with canonical-form and identity oracles'
